@@ -26,7 +26,10 @@ class G:
         self.next_rq = {}
         self.np = np_ or rng.choice([2, 2, 3, 3, 4, 4, 5, 6, 7, 8])
         self.prog = {"np": self.np, "types": [], "wins": [], "phases": [], "profile": profile}
-        self.unl_flush = True if profile == "clean" else rng.random() < 0.4
+        # one known-defect trigger at most per program (profiles t-*), so that violation keys name one root cause
+        self.unl_flush = profile != "t-unlock"       # flush pending Puts before MPI_Win_unlock
+        self.cas_safe = profile != "t-cas"           # flush after every Compare_and_swap before the location is used again
+        self.contig_vec = profile == "t-vecacc"      # vector types with stride == blocklength
 
     # ------------------------------------------------------------------ values
     def uniq(self, et):
@@ -94,7 +97,7 @@ class G:
                 a = [r.randint(1, 4)]
             elif k == "vector":
                 b = r.randint(1, 2)
-                a = [r.randint(1, 3), b, b + r.randint(0, 2)]
+                a = [r.randint(1, 3), b, b + r.randint(0 if self.contig_vec else 1, 2)]
             else:
                 a, d = [], 0
                 for _ in range(r.randint(1, 3)):
@@ -102,6 +105,8 @@ class G:
                     a.append([bl, d])
                     d += bl + r.randint(0, 2)
             self.prog["types"].append({"base": base, "kind": k, "args": a})
+        if self.contig_vec:
+            self.prog["types"].append({"base": self.prog["wins"][0]["et"], "kind": "vector", "args": [r.randint(1, 2), 2, 2]})
 
     def trefs(self, et, allow_bytes):
         out = ["e", "e", "e"]
@@ -282,6 +287,8 @@ class G:
                 else:
                     cur = r.choice([self.uniq(et), None])
                     op = self.mk_cas(o, w, t, reg[0], cur if cur is not None else self.guess(w, t, reg[0]))
+                    for l in locs:
+                        use[l] = ("X",)      # nothing else on this element in the epoch
             out.setdefault(o, []).append(op)
         return out
 
@@ -413,11 +420,15 @@ class G:
                 need([h], "acc")
                 ops.append(self.mk_cas(rank, w, t, h, self.guess(w, t, h)))
                 unflushed = True
+                if self.cas_safe:
+                    use[h] = "cas"
             elif tpl == "casf":     # fetch with NO_OP, then compare-and-swap with the fetched value: always succeeds
                 need([h], "acc")
                 f = self.mk_fop(rank, w, t, h, "NO_OP")
                 ops += [f, {"o": "FLUSHL", "w": w, "t": t}, self.mk_cas(rank, w, t, h, ["@", f["id"], 0, 0])]
                 unflushed = True
+                if self.cas_safe:
+                    use[h] = "cas"
             else:                   # blind put of fresh values + get of another element
                 reg = self.region(w, t, near=h, maxn=3)
                 if reg is None or len(set(reg[3])) != len(reg[3]):
@@ -449,7 +460,7 @@ class G:
             l = []
             for _ in range(r.choice([1, 1, 2, 3])):
                 if r.random() < 0.5:
-                    l.append({"o": "DELAY", "us": r.choice([1, 5, 20, 50, 100, 300])})
+                    l.append({"o": "DELAY", "us": r.choice([10, 500, 2000, 5000, 10000, 30000])})
                 ts = [r.choice(hot_t)]
                 if len(hot_t) > 1 and r.random() < 0.15:
                     ts = sorted(hot_t)          # two locks held, ascending order: no deadlock
@@ -474,7 +485,7 @@ class G:
         for t in hot_t:
             for e in self.hot_elems(w, t, r.choice([2, 3, 4])):
                 c = r.choice(["A", "A", "A", "REP", "CAS", "R", "W"])
-                if c == "CAS" and (et == "d" or (self.profile == "clean" and len(part) > 1)):
+                if c == "CAS" and (et == "d" or (self.cas_safe and len(part) > 1)):
                     c = "A"
                 if c == "A":
                     cls[(t, e)] = ("A", r.choice(self.ops_for(et)))
@@ -488,7 +499,7 @@ class G:
         for q in part:
             l = []
             if r.random() < 0.5:
-                l.append({"o": "DELAY", "us": r.choice([1, 5, 20, 50, 100])})
+                l.append({"o": "DELAY", "us": r.choice([10, 500, 2000, 5000, 10000])})
             lockall = r.random() < 0.4
             if lockall:
                 l.append({"o": "LOCKALL", "w": w})
@@ -521,6 +532,8 @@ class G:
                         l.append(self.mk_fop(q, w, t, e, "NO_OP"))
                     else:
                         l.append(self.mk_cas(q, w, t, e, self.guess(w, t, e)))
+                        if self.cas_safe:
+                            l.append({"o": "FLUSH", "w": w, "t": t})
                 elif c[0] == "R":
                     l.append(self.mk_get(q, w, t, (e, "e", 1, [e])))
                 elif c[0] == "W" and c[1] == q:
@@ -558,7 +571,7 @@ class G:
         for q in range(self.np):
             l = []
             if r.random() < 0.7:
-                l.append({"o": "DELAY", "us": r.choice([1, 5, 20, 50, 100, 200])})
+                l.append({"o": "DELAY", "us": r.choice([10, 500, 2000, 5000, 10000, 30000])})
             if roles[q] == "x":
                 for _ in range(r.choice([1, 2])):
                     l.append({"o": "LOCK", "w": w, "lt": "x", "t": t})
@@ -568,7 +581,7 @@ class G:
                     l.append(self.mk_put(q, w, t, (h, "e", 1, [h]), vals_for=[["@", g["id"], g["_map"][0], r.randint(1, 500)]]))
                     l += [{"o": "FLUSH", "w": w, "t": t}, {"o": "UNLOCK", "w": w, "t": t}]
                     if r.random() < 0.5:
-                        l.append({"o": "DELAY", "us": r.choice([5, 50, 200])})
+                        l.append({"o": "DELAY", "us": r.choice([500, 5000, 20000])})
             else:
                 la = r.random() < 0.3
                 l.append({"o": "LOCKALL", "w": w} if la else {"o": "LOCK", "w": w, "lt": "s", "t": t})
@@ -585,10 +598,10 @@ class G:
         self.make_windows()
         r = self.rng
         if kinds is None:
-            pool = ["fence", "fence", "pscw", "excl", "excl", "shared", "shared"]
-            if self.profile != "clean":
-                pool += ["mixed", "excl"]
-            kinds = [r.choice(pool) for _ in range(r.choice([1, 2, 2, 3, 4]))]
+            pool = {"clean": ["fence", "fence", "pscw", "excl", "excl", "shared", "shared"],
+                    "t-unlock": ["excl"], "t-cas": ["excl", "shared"], "t-mixed": ["mixed"],
+                    "t-vecacc": ["fence", "pscw", "excl", "shared"]}[self.profile]
+            kinds = [r.choice(pool) for _ in range(r.choice([1, 2, 2, 3, 4] if self.profile == "clean" else [1, 1, 2]))]
         for k in kinds:
             w = r.randrange(len(self.prog["wins"]))
             self.prog["phases"].append(getattr(self, "phase_" + k)(w))
